@@ -112,6 +112,23 @@ class C08(XsProp):
                 for first in ('u16 drop', ''):
                     cs.append('xp limits 600 80 40 | input a50f33cc0100ff41420043 0 88 | eval %s | pretty | eval %s | pretty' % (
                         hexsrc((first + ' ' + b).strip()), hexsrc(r_)))
+        # (c') reverse steps over a log that no longer matches the stacks: with recording on, a rejected source whose meta block
+        # already ran logged words at build time leaves their log entries behind (the recorded finding D24 of C02); every inverse
+        # operation must then refuse or proceed, never crash - each logged operation x 0..4 values left outside x 0..3 inside
+        logged = ['rot', 'swap', 'over', 'dup', 'drop', '+', '2 *', '[ 1 2 ]', '[ ]', '{ 1 2 }', '^{ 1 "a" ^}', '3 0 do I loop', '3 0 do loop',
+                  '1 if 2 then', '0 if 2 else 3 then', 'begin 1 until', '[ 1 2 ] foreach I loop', '"a" "b" concat', 'depth', '5 case 5 of 1 endof endcase',
+                  'rot rot', 'swap drop', 'over over', 'dup dup drop', '[ 7 ] 0 nth', 'true assert', '1 2 assert-eq', '1 1 assert-eq', 'nil 1 +',
+                  '[ 1 2 3 ] let [ a b c ] in a b c', '1 2 3 rot swap over']
+        for w_ in logged:
+            for outer in range(0, 5):
+                for inner in range(0, 4):
+                    pre = ' '.join(str(10 + i) for i in range(outer))
+                    own = ' '.join(str(20 + i) for i in range(inner))
+                    tail = rng.choice(['zzz', '#) zzz', '#) 1 "a" +', ']', '#( %s zzz' % w_])
+                    back = ['rnext'] * rng.randint(1, 7) + rng.sample(['next', 'rnext', 'rnext', 'run'], 2)
+                    steps = ['xp limits 600 80 40', 'rec on'] + (['eval %s' % hexsrc(pre)] if pre else []) + \
+                            ['%s %s' % (rng.choice(['eval', 'eval', 'compile']), hexsrc('#( %s %s %s' % (own, w_, tail)))] + back + ['pretty', 'dump']
+                    cs.append(' | '.join(steps))
         # (c) API sequences
         for _ in range(500 if not thorough else 20000):
             steps = ['xp limits 500 80 40']
